@@ -1506,8 +1506,16 @@ func runRedis(c *kit.Case, vc *kit.VClock) {
 		switch {
 		case r.Chance(pFail):
 			answer, success = boom, false
+			if !effect && r.Chance(0.25) { // a negative control / a deadline error (c01_shapes_sites_test.go): refused as well
+				answer = redisShFail[r.Intn(len(redisShFail))].mk(errSeq.Add(1))
+				c.Obs("redis_shape_calls_in_random_histories", 1)
+			}
 		case r.Chance(0.3):
 			answer = red.Nil // acceptable for go-zero's redis client
+			if r.Chance(0.6) { // red.Nil / context.Canceled in one of the errors.Is shapes: accepted as well
+				answer = redisShOk[r.Intn(len(redisShOk))].mk(errSeq.Add(1))
+				c.Obs("redis_shape_calls_in_random_histories", 1)
+			}
 		default:
 			answer = nil
 		}
@@ -1652,6 +1660,28 @@ func TestVerifC01(t *testing.T) {
 	kit.Run(t, "C01", "sqlx-effect", kit.N(len(sqlFailCombos), 10*len(sqlFailCombos)), func(c *kit.Case) { runSqlxEffect(c, vc) })
 	kit.Run(t, "C01", "sqlx-flood", kit.N(len(sqlOkCombos), 10*len(sqlOkCombos)), func(c *kit.Case) { runSqlxFlood(c, vc) })
 	kit.Run(t, "C01", "sqlx-shared", kit.N(5, 50), func(c *kit.Case) { runSqlxShared(c, vc) })
+
+	// (d) sqlx: SqlConns made with sqlx.NewSqlConn over a registered scripted driver whose connection
+	// acquisition fails (c01_sqlx_dial_test.go)
+	kit.Run(t, "C01", "sqlx-dial", kit.N(120, 2000), func(c *kit.Case) { runSqlxDial(c, vc) })
+	kit.Run(t, "C01", "sqlx-dial-effect", kit.N(2*len(sqlDialEntries), 10*len(sqlDialEntries)), func(c *kit.Case) { runSqlxDialEffect(c, vc) })
+
+	// error-value shapes of the sentinels the redis / sqlx predicates name (c01_shapes_test.go,
+	// c01_shapes_sites_test.go): one flood per (accepted sentinel, shape), one all-failing run per
+	// (negative control | refused sentinel, shape)
+	if err := vfC01ShSelfCheck(redisShSens...); err != nil {
+		t.Fatalf("redis sentinels: %v", err)
+	}
+	if err := vfC01ShSelfCheck(sqlShSens...); err != nil {
+		t.Fatalf("sqlx sentinels: %v", err)
+	}
+	if vfC01ShDialTimeout == nil || vfC01ShDialCanceled == nil {
+		kit.Obs("real_net_errors_unavailable", 1)
+	}
+	kit.Run(t, "C01", "redis-shape-flood", kit.N(len(redisShOk), 6*len(redisShOk)), func(c *kit.Case) { runRedisShapeFlood(c, vc) })
+	kit.Run(t, "C01", "redis-shape-effect", kit.N(len(redisShFail), 6*len(redisShFail)), func(c *kit.Case) { runRedisShapeEffect(c, vc) })
+	kit.Run(t, "C01", "sqlx-shape-flood", kit.N(2*len(sqlShOk), 12*len(sqlShOk)), func(c *kit.Case) { runSqlxShapeFlood(c, vc) })
+	kit.Run(t, "C01", "sqlx-shape-effect", kit.N(2*len(sqlShFail), 12*len(sqlShFail)), func(c *kit.Case) { runSqlxShapeEffect(c, vc) })
 
 	kit.End()
 }
